@@ -589,3 +589,23 @@ func blockedStacks() string {
 	}
 	return sb.String()
 }
+
+// Pending records, before an input is handed to the server, the violation to
+// report if the process does not survive it: a fatal runtime error (out of
+// memory, stack overflow) cannot be recovered, and a server thread that spins
+// for real stops the whole cooperative scheduler.  The driver turns a shard
+// that died with a pending record into that violation; a real-time watchdog
+// ends a spinning shard after a minute instead of waiting for the shard timeout.
+func (r *Result) Pending(sig, detail string, replay any) (done func()) {
+	f := r.job.Out + ".pending"
+	b, _ := json.Marshal(map[string]any{"sig": sig, "detail": detail, "replay": replay})
+	os.WriteFile(f, b, 0644)
+	t := stdtime.AfterFunc(60*stdtime.Second, func() {
+		fmt.Fprintf(os.Stderr, "verif watchdog: no progress for 60 s of real time while handling: %s\n", detail)
+		os.Exit(3)
+	})
+	return func() {
+		t.Stop()
+		os.Remove(f)
+	}
+}
